@@ -19,7 +19,7 @@ import (
 // interpreter state could take the process down.
 
 type loadCase struct {
-	Kind     string `json:"kind"` // "load"
+	Kind     string `json:"kind"`   // "load"
 	Stream   string `json:"stream"` // main | sg | vals (the value catalogue, rendezvous at the gates)
 	Seed     uint64 `json:"seed"`
 	InFlight int    `json:"inflight"`
